@@ -592,6 +592,7 @@ func (a *Analyzer) external(fr *frame, site ssa.Instruction, name string, sig *t
 		if s != nil {
 			st.AssumeGE(s.Len.Sub(AtomLin(n)))
 			st.Ver[s.Base.ID] = a.id()
+			a.markReused(s, "buffer handed to "+shortName(base)+" at "+a.P.RelPos(site.Pos())+" (overwritten by the next read)")
 		}
 		return one(&Tuple{Elems: []Term{Int{AtomLin(n)}, &Unknown{ID: a.id(), Typ: sig.Results().At(1).Type(), Desc: "err"}}})
 	}
